@@ -31,7 +31,7 @@ from core.loader import AnalysisError, FuncInfo, Repo, calls_in, norm
 from core.report import Result
 
 from . import scan
-from .c04_norm import dotted, leaves, loc, rename_atoms, restrict, seq, show_dotted, show_loc, strip_abs, unbox
+from .c04_norm import canon, dotted, leaves, loc, rename_atoms, restrict, seq, show_dotted, show_loc, strip_abs, unbox
 from .c04_symx import FALSE, TRUE, Event, Formula, SymX, Term, Trace, atom, atoms_of, evaluate, f_and, f_not, f_or, implies, is_const, rewrite, show, show_formula, simplify, substitute, subterms
 from .common import stmt_of, types_of, where
 
@@ -356,7 +356,7 @@ def rule_r3(repo: Repo, res: Result) -> None:
         ok = root == ("param", root_param) if info.ctor_heap else root[0] == "attr" and root[1] == ("param", info.parse.param_names[0])
         res.add("C04.R3", key + " [relative to the source root]", ok, "names are computed from the path relative to the scanner's source root" if ok else f"module names are computed relative to `{show_loc(base_loc)}`, not to the source root handed to the scanner", wh, kind="structural")
         alts = list(el[1]) if el[0] == "phi" else [(TRUE, el)]
-        want = [("parts", ("NOSUF", rel))] if base_loc[0] == "PARENT" else [("item", ("attr", root, "name")), ("parts", ("NOSUF", rel))]
+        want = canon([("parts", ("NOSUF", rel))] if base_loc[0] == "PARENT" else [("item", ("attr", root, "name")), ("parts", ("NOSUF", rel))])
         want_root = [("item", ("attr", root, "name"))]
         general = [(g, v) for g, v in alts if dotted(v) != want_root]
         rootcase = [(g, v) for g, v in alts if dotted(v) == want_root]
@@ -995,7 +995,7 @@ def rule_r5(repo: Repo, res: Result) -> None:
         res.add("C04.R5", f"{tag}::internal modules <- scan result", ok_i, "the set of internal modules handed to the import conversion is computed from the scanned modules" if ok_i else f"the internal-module set of the import conversion is `{show(internal, 80) if internal is not None else '?'}`: not computed from the scanned modules, so no prefixed name can ever be recognised", where(e.fi, e.node), kind="flow")
         M, R = ("param", "module_path"), ("param", "root_path")
         rel_mr = ("REL", M, R)
-        want = [("parts", ("REL", ("PARENT", M), ("PARENT", R)))]
+        want = canon([("parts", ("REL", ("PARENT", M), ("PARENT", R)))])
         if prefix is None:
             res.undecide("C04.R5", f"{tag}::absolute-import prefix", "no prefix argument", where(e.fi, e.node))
         else:
